@@ -157,7 +157,8 @@ def gen(rng, tier):
                     'scope': rng.choice(['', 'sa'])})
     hooks.append(items)
   return {'specs': specs, 'ops': ops, 'hooks': hooks,
-          'shadow': rng.choice([None, None, 'function', 'two_classes'])}
+          'shadow': rng.choice([None, None, 'function', 'two_classes',
+                                'redefined_class', 'bound_then_rehomed'])}
 
 
 K_SRC = '''
@@ -527,6 +528,76 @@ def run(case):
           v('C11.accepted_visible', ['same-named-methods-of-two-classes'],
             'K.meth.ma=for-K-meth, K2.meth.ma=for-K2-meth: K().meth() receives '
             '%r, K2().meth() receives %r' % (got1, got2))
+      # (3) the class (and its registered method) defined a second time, as when
+      # a notebook cell is run again: the new method is a method as well
+      if case['shadow'] == 'redefined_class':
+        with gin.config.interactive_mode():
+          exec(compile(K_SRC, '<K again>', 'exec'), g3)  # pylint: disable=exec-used
+          Kb = g3['K']
+          Kb.__module__ = 'ginsim_probes'
+          Kb.meth = gin.register(denylist=['mb'])(Kb.meth)
+          gin.register(module='mm', denylist=['kb'])(Kb)
+        KbC = gin.get_configurable(Kb)
+        for bare in ('meth', 'ginsim_probes.meth'):
+          before_b = snapshot()
+          exc_b = None
+          try:
+            gin.bind_parameter(bare + '.ma', 'bare-after-redefinition')
+          except Exception as e:  # pylint: disable=broad-except
+            exc_b = e
+          if exc_b is None:
+            v('C11.rejected_raises', ['bare-method-after-redefinition'],
+              'after K (with its registered method) was defined and registered '
+              'a second time in interactive mode, %r.ma - the method without '
+              'its class - was accepted' % bare)
+          elif snapshot() != before_b:
+            v('C11.rejection_atomic', ['bare-method-after-redefinition'],
+              'rejected binding %r.ma changed the configuration' % bare)
+        gin.bind_parameter('mm.K.meth.ma', 'for-redefined-K')
+        got = call_method(KbC, 'K.meth')
+        if got != 'for-redefined-K':
+          v('C11.accepted_visible', ['redefined-class-method'],
+            'mm.K.meth.ma bound after K was redefined: K().meth() receives %r'
+            % (got,))
+      # (4) a method bound under the name it has before its class is registered
+      # keeps the binding when the class takes it over, and the freed name
+      # starts empty
+      if case['shadow'] == 'bound_then_rehomed':
+        exec(compile(K_SRC.replace('class K:', 'class K3:').replace(
+            "'K.meth'", "'K3.meth'").replace("'K.meth2'", "'K3.meth2'"),
+                     '<K3>', 'exec'), g3)
+        K3 = g3['K3']
+        K3.__module__ = 'ginsim_probes'
+        K3.meth = gin.register(K3.meth)
+        gin.bind_parameter('ginsim_probes.meth.ma', 'bound-early')
+        gin.register(module='mm')(K3)
+        K3C = gin.get_configurable(K3)
+        got = call_method(K3C, 'K3.meth')
+        if got != 'bound-early':
+          v('C11.accepted_visible', ['method-bound-before-its-class'],
+            'meth.ma bound while the method was registered on its own; after '
+            'its class K3 was registered K3().meth() receives %r' % (got,))
+        try:
+          q = gin.query_parameter('mm.K3.meth.ma')
+        except Exception as e:  # pylint: disable=broad-except
+          q = 'EXC %s' % type(e).__name__
+        if q != 'bound-early':
+          v('C11.accepted_visible', ['method-bound-before-its-class', 'query'],
+            'query_parameter(mm.K3.meth.ma) gives %r' % (q,))
+        exec('def meth(fa=0, ma=0):\n'  # pylint: disable=exec-used
+             "  return _hook('late_fn', {'fa': fa, 'ma': ma}, (), {}, None)\n",
+             g3)
+        late = gin.configurable(g3['meth'])
+        received.clear()
+        try:
+          late()
+          got = received.get('late_fn', ({},))[0].get('ma')
+        except Exception as e:  # pylint: disable=broad-except
+          got = 'EXC %s: %s' % (type(e).__name__, probes.scrub(str(e))[:200])
+        if got != 0:
+          v('C11.never_injected', ['freed-name-inherits-binding'],
+            'a function registered under the name the method had before its '
+            'class took it over receives ma=%r, never bound for it' % (got,))
       log.add('shadow', case['shadow'])
     except Exception as e:  # pylint: disable=broad-except
       if not gin.config_is_locked():
